@@ -119,6 +119,32 @@ deriving Repr, DecidableEq
 def slicePts (pts : List Pt) (first last : Nat) : List Pt :=
   (List.range (last + 1 - first)).filterMap fun j => pts[first + j]?
 
+/-- linear-time form of `slicePts` for the compiled driver -/
+def slicePtsImpl (pts : List Pt) (first last : Nat) : List Pt :=
+  (pts.drop first).take (last + 1 - first)
+
+theorem range_filterMap_take {α : Type} (l : List α) (n : Nat) :
+    (List.range n).filterMap (fun j => l[j]?) = l.take n := by
+  induction n with
+  | zero => simp
+  | succ n ih =>
+    rw [List.range_succ, List.filterMap_append, ih, List.take_add_one]
+    cases h : l[n]? <;> simp [h]
+
+theorem slicePts_eq (pts : List Pt) (first last : Nat) :
+    slicePts pts first last = (pts.drop first).take (last + 1 - first) := by
+  unfold slicePts
+  rw [← range_filterMap_take]
+  congr 1
+  funext j
+  rw [List.getElem?_drop]
+
+/-- the compiler may use the linear form: it is the same function (indexing a `List` point by
+point is quadratic, which matters for glyphs with 65536 points) -/
+@[csimp] theorem slicePts_eq_impl : @slicePts = @slicePtsImpl := by
+  funext pts first last
+  exact slicePts_eq pts first last
+
 /-- contour `i` consists of the points after the end of contour `i-1` up to `endPts[i]` -/
 def splitContours (pts : List Pt) : Nat → List Nat → List (List Pt)
   | _, [] => []
